@@ -280,7 +280,8 @@ func initiatorBody(depth int) nd.Body {
 			case "challenge-bad-base64":
 				return el("challenge", "!!!"), nil
 			case "success-bad-base64":
-				noteSuccess()
+				// (no noteSuccess: an undecodable payload completes nothing - "undecodable
+				// or malformed payloads" never produce an authenticated session)
 				return el("success", "!!!"), nil
 			case "unknown-sasl-element":
 				return el("foo", ""), nil
@@ -517,6 +518,19 @@ func receiverBody(depth int) nd.Body {
 		if last != "auth-plain-valid" && last != "auth-plain-wrong-password" && last != "response-valid-plain" {
 			return fail("authenticated-by-unexpected-message", "the last client message was %s", last)
 		}
+		if last == "response-valid-plain" {
+			// "responses before a mechanism was chosen" complete nothing: a
+			// response counts only after an <auth/> that named an offered mechanism
+			chosen := false
+			for _, m := range script[:len(script)-1] {
+				if strings.HasPrefix(m, "auth-plain") || (m == "auth-scram-first" && len(mechs) > 1) {
+					chosen = true
+				}
+			}
+			if !chosen {
+				return fail("authenticated-by-response-without-auth", "no <auth/> selected a mechanism before the response that was accepted")
+			}
+		}
 		return res
 	}
 }
@@ -530,9 +544,9 @@ func init() {
 		Assumptions: []string{"only-if direction: a success the client rejects is not a violation", "server-side SCRAM cannot complete in this code base (no salted credential source is wired) and -PLUS needs a TLS connection state: receiver configurations are PLAIN (+ SCRAM-SHA-1 offered but unable to finish); a 'not implemented' panic inside mellium.im/sasl is recorded as an outcome, not explored", "PBKDF2 runs at the library's iteration count 4096",
 			"mellium.im/sasl v0.3.2 hangs (infinite loop in the SCRAM client's parameter parser) on an empty or attribute-less payload received while waiting for the server-first message; those executions are skipped and counted under skipped_out_of_domain"},
 		Parts: func(tier string) []drv.Part {
-			d, b := 3, 4*time.Minute
+			d, b := 4, 4*time.Minute
 			if tier == "thorough" {
-				d, b = 4, 30*time.Minute
+				d, b = 6, 30*time.Minute
 			}
 			return []drv.Part{
 				{Name: "initiator", Desc: fmt.Sprintf("peer scripts of <= %d steps", d), Body: initiatorBody(d), CutDepth: 3, Budget: b, CrashIsolate: true},
